@@ -86,6 +86,8 @@ def run(chk, repo):
     chk.rule("C05-F6", "leader and volume directory are plain sequential Structs (no Seek/Tell at record level)", 2)
     chk.rule("C05-F7", "each record starts where its predecessor ends (offset chain)", 10)
 
+    from .common_rules import stateless_constructs
+    chk.attempt(stateless_constructs, chk, repo, "C05-F8")
     total_leaves = 0
     for key in ("leader", "volume", "trailer"):
         leaves, end, _ = L.get(key)
